@@ -18,7 +18,7 @@ Theorem C11_source_literals :
   mj_counter_first = 0 /\ mj_counter_incr = 1 /\ mj_leaf_num_splits = 0 /\ mj_axis_step = 1%nat /\
   mj_num_splits_offset = 1 /\ mj_scheme_stops_on_rem0_iter0 = true /\
   mj_scan_test_is_gt = true /\ mj_skip_test_is_gt = true /\ mj_refine_test_is_lt = true /\
-  mj_refine_uses_default_ulps = true /\ mj_refine_bounded_by_len = true /\
+  mj_refine_ulps_epsilon_is_zero = true /\ mj_refine_bounded_by_len = true /\
   mj_scan_exhaustion_puts_cut_at_end = true /\
   approx_version = (0, 5, 1).   (* f64_ulps_eq is transcribed from this version of the approx crate *)
 Proof. repeat split; exact eq_refl. Qed.
@@ -185,23 +185,24 @@ Example C11_nonvacuous_f64 :
                root2 N.of_nat 3 2 (repeat 99 6) = Ok [2; 0; 2; 0; 1; 0].
 Proof. vm_compute. reflexivity. Qed.
 
-(* ---- the balance clause is FALSE of the faithful binary64 model for strictly
-   positive weights far below f64::EPSILON (finding 1, class mj-tiny-weights):
-   eight points on a line, weight 2^-57 each, two parts, one iteration — the
-   absolute epsilon of approx::Ulps::default() makes every prefix sum "equal"
-   to the threshold and all eight elements land in one part.  The exact model
-   splits them 4 | 4.  This is why C11_balance_partial cannot be extended to
-   [F64] without a lower bound on the weights. *)
+(* ---- regression witness for 70b7d46: with the comparison the code used before
+   (`Ulps::default()`, ABSOLUTE epsilon 2^-52: arithmetic [F64_default_epsilon])
+   the balance clause is false for strictly positive weights far below
+   f64::EPSILON: eight points on a line, weight 2^-57 each, two parts, one
+   iteration — every prefix sum is "equal" to the threshold and all eight
+   elements land in one part.  With the repaired comparison ([F64], epsilon 0.0)
+   and at exact arithmetic they split 4 | 4. *)
 Definition tiny_key (a x : nat) : Z := if Nat.eqb a 0 then Z.of_nat x else 0%Z.
 Definition tiny_w : spec_float := binary_normalize 53 1024 1 (-57) false.
+Definition tiny_run (A : arith) (w : num A) : res (list N) :=
+  multi_jagged A 2 8 (repeat w 8) (fun a => isort (key_lt tiny_key a)) (fun l => repeat 3%nat (length l))
+               root2 N.of_nat 2 1 (repeat 99 8).
 Example C11_balance_f64_refuted_tiny :
-  exists p,
-    multi_jagged F64 2 8 (repeat tiny_w 8) (fun a => isort (key_lt tiny_key a)) (fun l => repeat 3%nat (length l))
-                 root2 N.of_nat 2 1 (repeat 99 8) = Ok p
-    /\ ~ balanced (repeat 1%Z 8) p 2 1
-    /\ multi_jagged QA 2 8 (repeat (Qmake 1 (2 ^ 57)) 8) (fun a => isort (key_lt tiny_key a)) (fun l => repeat 3%nat (length l))
-                    root2 N.of_nat 2 1 (repeat 99 8) = Ok [0; 0; 0; 0; 1; 1; 1; 1].
+  (exists p, tiny_run F64_default_epsilon tiny_w = Ok p /\ ~ balanced (repeat 1%Z 8) p 2 1)
+  /\ tiny_run F64 tiny_w = Ok [0; 0; 0; 0; 1; 1; 1; 1]
+  /\ tiny_run QA (Qmake 1 (2 ^ 57)) = Ok [0; 0; 0; 0; 1; 1; 1; 1].
 Proof.
-  exists [0; 0; 0; 0; 0; 0; 0; 0]. split; [vm_compute; reflexivity|]. split; [|vm_compute; reflexivity].
+  split; [|split; vm_compute; reflexivity].
+  exists [0; 0; 0; 0; 0; 0; 0; 0]. split; [vm_compute; reflexivity|].
   intros H. apply C11_check_balance_ok in H. vm_compute in H. discriminate.
 Qed.
